@@ -85,10 +85,13 @@ def case(cid, rng):
             Kfit = KernelNormalizer().fit_transform(Kraw.copy()) if center else Kraw
             r2 = KernelRidge(alpha=alpha, kernel="precomputed").fit(Kfit, Y)
             # a fitted regressor must carry the same kernel parameters as the estimator
-            r.fit(X, Y)
+            r.fit(X, Y1)
             if center:
                 return None if False else r   # fitted on the raw kernel: only meaningful without centring
         return r
+    # a single target is handed over one-dimensional half of the time (the main model and its held-out scores)
+    y1d = p == 1 and rng.random() < 0.5
+    Y1 = Y[:, 0] if y1d else Y
     try:
         with warnings.catch_warnings():
             warnings.simplefilter("ignore")
@@ -97,7 +100,7 @@ def case(cid, rng):
                 reg = KernelRidge(alpha=alpha, **kargs(kp, full))
                 c["reg"] = "krr"
             mdl = core.mk(KernelPCovR, mixing=a / 8.0, n_components=k, regressor=reg, center=center, svd_solver="full", tol=1e-12,
-                              **kargs(kp, full)).fit(X, Y)
+                              **kargs(kp, full)).fit(X, Y1)
             TN = mdl.transform(X)
             c["TN"], c["ypN"] = fq(TN), fq(np.reshape(mdl.predict(X), (n, -1)))
             c["W"] = fq(np.reshape(mdl.regressor_.dual_coef_, (n, -1)))
@@ -126,7 +129,7 @@ def case(cid, rng):
                 warnings.simplefilter("ignore")
                 h["TV"] = fq(mdl.transform(Xv))
                 h["yp"] = fq(np.reshape(mdl.predict(Xv), (V, -1)))
-                sc_ = float(mdl.score(Xv, Yv))
+                sc_ = float(mdl.score(Xv, Yv[:, 0] if y1d else Yv))
                 h["finite"] = bool(np.isfinite(sc_))        # 0/0 when the centred self-kernel of the held-out set vanishes
                 h["score"] = int(round(sc_ * S)) if h["finite"] else 0
         except Exception as e:  # noqa
